@@ -10,6 +10,7 @@
 package c07
 
 import (
+	"strconv"
 	"net/http"
 	"net/url"
 	"time"
@@ -171,10 +172,7 @@ func ZZ_C07_flow_lifetimes_jwt() { jwtAccess = true; flowLifetimes() }
 
 func flowLifetimes() {
 	wd, lt := setup()
-	nflows := 4
-	if zz.Thorough() {
-		nflows = 5 // + implicit grant at the authorization endpoint
-	}
+	nflows := 5 // the four token-endpoint grants + the implicit grant at the authorization endpoint
 	if jwtAccess {
 		nflows = 2
 	}
@@ -241,8 +239,10 @@ func flowLifetimes() {
 		}
 		at = aresp.GetParameters().Get("access_token")
 		zz.Assert(at != "", "implicit response carries the access token")
-		// expires_in is a decimal string here; the region cut below uses the lifetime source instead
-		advertised = wantAT
+		// expires_in is a decimal string here
+		adv, perr := strconv.ParseInt(aresp.GetParameters().Get("expires_in"), 10, 64)
+		zz.Assert(perr == nil, "implicit response carries a decimal expires_in")
+		advertised = time.Duration(adv) * time.Second
 	}
 	if flow != 4 {
 		zz.Assert(err == nil, "flow succeeds")
